@@ -94,6 +94,8 @@ class Tree:
         allowed = MODS
         if rel in ("modules/m1.py", "modules/m1/__init__.py"):
             allowed = ["m2"]
+        elif rel.startswith("modules/p1/inner/"):
+            allowed = ["m2"]
         elif rel.startswith("modules/p1/"):
             allowed = ["m1", "m2"] if rel.endswith("__init__.py") else ["m2"]
         out = []
@@ -111,6 +113,10 @@ class Tree:
         lines = [f"GEN = {f['gen']}", "vf.rec('load', ctx=pyscript.get_global_ctx(), gen=GEN)"]
         if rel == "modules/p1/__init__.py":
             lines.append("from . import sub")
+            if "modules/p1/inner/__init__.py" in self.files:
+                lines.append("from . import inner")
+        if rel == "modules/p1/inner/__init__.py":
+            lines.append("from . import deep")
         if rel == "apps/a2/__init__.py":
             lines.append("from . import helper")
         for form, m in f["imports"]:
@@ -148,6 +154,10 @@ def direct_imports(tree, rel, present_ctx):
     out = []
     if rel == "modules/p1/__init__.py":
         out.append("modules.p1.sub")
+        if "modules/p1/inner/__init__.py" in tree.files:
+            out.append("modules.p1.inner")
+    if rel == "modules/p1/inner/__init__.py":
+        out.append("modules.p1.inner.deep")
     if rel == "apps/a2/__init__.py":
         out.append("apps.a2.helper")
     for _, m in tree.files[rel]["imports"]:
@@ -286,6 +296,10 @@ def initial_tree(rng):
     t.new_file("modules/m1.py")
     t.new_file("modules/p1/__init__.py")
     t.new_file("modules/p1/sub.py")
+    if rng.random() < 0.5:
+        # files two directories below modules/<pkg> (contexts modules.p1.inner and modules.p1.inner.deep)
+        t.new_file("modules/p1/inner/deep.py")
+        t.new_file("modules/p1/inner/__init__.py")
     for rel in ["x.py", "y.py", "scripts/s1.py", "scripts/sub/s2.py", "apps/a1.py", "apps/a2/__init__.py", "apps/a2/helper.py"]:
         if rng.random() < 0.8 or rel.startswith("apps/a2/"):
             t.new_file(rel)
